@@ -265,13 +265,45 @@ class XorSet:
         return 'Xor{%s ^ %#x}' % (', '.join('%s[%s]<<<%d' % t for t in sorted(self.terms)), self.conc)
 
 
+class SparseFields:
+    """immutable large array: length, default element and a dict of the elements that differ (used for the 3M-word bloom
+    buffer, where copying a python list on every store would dominate the run time)"""
+    __slots__ = ('n', 'default', 'd')
+
+    def __init__(self, n, default, d=None):
+        self.n = n
+        self.default = default
+        self.d = d or {}
+
+    def __len__(self):
+        return self.n
+
+    def __getitem__(self, i):
+        if isinstance(i, slice):
+            return [self[j] for j in range(*i.indices(self.n))]
+        if i < 0 or i >= self.n:
+            raise IndexError(i)
+        return self.d.get(i, self.default)
+
+    def __iter__(self):
+        return (self[i] for i in range(self.n))
+
+    def with_item(self, i, val):
+        d = dict(self.d)
+        d[i] = val
+        return SparseFields(self.n, self.default, d)
+
+    def __eq__(self, o):
+        return isinstance(o, SparseFields) and (self.n, self.default, self.d) == (o.n, o.default, o.d)
+
+
 class Agg:
     __slots__ = ('kind', 'variant', 'fields')
 
     def __init__(self, kind, variant, fields):
         self.kind = kind
         self.variant = variant
-        self.fields = list(fields)
+        self.fields = fields if isinstance(fields, SparseFields) else list(fields)
 
     def __repr__(self):
         if self.kind == 'tuple':
